@@ -879,3 +879,92 @@ class _PhOps:
 
     def __getitem__(self, k):
         return self.MX("lin", {k: 1})
+
+
+# ---------------------------------------------------------------------------------------------- one- and two-site reduced density matrices of a chain
+def rdm_rule(chk, src, rule):
+    """abstract run of Mps.calc_1site_rdm / calc_2site_rdm on a 4-site chain of abstract tensors (state form and density-operator form); the environments are stand-ins with
+    axes (bra bond, operator bond of size one, ket bond).  For every site (pair) the result is the closed network <Psi| ... |Psi> with the physical index of the requested
+    site(s) open: bra bonds meet conjugated tensors, ket bonds plain ones, every other physical (and every ancilla) index is traced with its own conjugate, and the
+    matrix is indexed (ket indices, bra indices) in site order, as documented: rho[a, b] = <a|rho|b>."""
+    from .. import ntensor as NTm
+    from ..ntensor import NT, Leg
+    n = 4
+    bonds, ph, qh = [41, 2, 3, 5, 43], [7, 11, 13, 17], [19, 23, 29, 31]      # abstract sizes: also the boundary bonds are non-trivial here
+    resolve = class_resolver(src, {"Mps": MPS})
+    for rank in (3, 4):
+        for qual in ("Mps.calc_1site_rdm", "Mps.calc_2site_rdm"):
+            fi = src.func(MPS, qual)
+            edges = []
+
+            def site(i):
+                legs = [Leg(("S", i, 0), bonds[i]), Leg(("S", i, 1), ph[i])] + ([Leg(("S", i, 2), qh[i])] if rank == 4 else []) + [Leg(("S", i, rank - 1), bonds[i + 1])]
+                return NT(f"S{i}", legs, edges)
+            me = Chain(n, True, cls="Mps")
+            me.sites = [site(i) for i in range(n)]
+            me.model = Sym("model")
+
+            class Env(Sym):
+                """environment of the identity operator: GetLR(domain, idx, ...) = everything left of site idx+1 / right of site idx-1, axes (bra, operator, ket)"""
+                def GetLR(self, domain, idx, mps=None, mpo=None, itensor=None, method=None):
+                    if domain == "L":
+                        k = idx + 1          # the bond between site idx and idx+1
+                        ident = ("S", k, 0) if k < n else ("S", n - 1, rank - 1)
+                    else:
+                        k = idx              # the bond between site idx-1 and idx
+                        ident = ("S", k - 1, rank - 1) if k > 0 else ("S", 0, 0)
+                    d = bonds[k] if 0 <= k <= n else 1
+                    # the environment's open bonds are the partners of the site's bonds: joining them is recorded as an edge with the site's own bond
+                    return NT(f"{domain}env{idx}", [Leg(("E", domain, k, "bra"), d, conj=True), Leg(("E", domain, k, "op"), 1), Leg(("E", domain, k, "ket"), d)], edges)
+
+                def read(self, domain, idx):
+                    return self.GetLR(domain, idx)
+            npx = NTm.np_namespace()
+            it = SymInterp(src, resolve, {"np": npx, "xp": npx, "tensordot": NTm.tensordot, "moveaxis": NTm.moveaxis, "Environ": lambda *a, **k: Env("environ"), "asnumpy": lambda x: x, "asxp": lambda x: x,
+                                          "Mpo": Sym("Mpo", identity=lambda m: Sym("identity")), "logger": Blob("logger"), "type": lambda x: type(x), "list": list, "tuple": tuple, "int": int})
+            it.max_depth = 10
+            problems = []
+            try:
+                res = it.call_function(fi, [me])
+            except (ValueError, SymRaise) as e:
+                res = None
+                problems.append(f"{type(e).__name__}: {e}")
+            if res is not None and not isinstance(res, dict):
+                problems.append(f"the result is {res!r}, expected a dict")
+            if isinstance(res, dict):
+                want_keys = list(range(n)) if qual.endswith("1site_rdm") else [(i, j) for i in range(n) for j in range(i + 1, n)]
+                if sorted(res.keys()) != want_keys:
+                    problems.append(f"keys {sorted(res.keys())[:6]}; expected {want_keys[:6]}")
+                for key in want_keys:
+                    t = res.get(key)
+                    if not isinstance(t, NT):
+                        continue
+                    sites_ = [key] if isinstance(key, int) else list(key)
+                    if len(sites_) == 1:
+                        want = [(("S", sites_[0], 1), False), (("S", sites_[0], 1), True)]
+                        got = [(l.key(), l.conj) for l in t.legs]
+                    else:
+                        want = [(("M", ("S", sites_[0], 1), ("S", sites_[1], 1)), False), (("M", ("S", sites_[0], 1), ("S", sites_[1], 1)), True)]
+                        got = [(l.key(), l.conj) for l in t.legs]
+                    if got != want:
+                        problems.append(f"rdm[{key}] has axes {t.legs}; expected (ket index(es) of site(s) {sites_}, then the bra index(es))")
+                # the contractions: every edge joins conj with conj / plain with plain on bonds, and a physical or ancilla index with its own conjugate
+                for a, ca, b, cb in edges:
+                    ea, eb = a[0] == "E", b[0] == "E"
+                    if ea or eb:
+                        env, oth, ce, co = (a, b, ca, cb) if ea else (b, a, cb, ca)
+                        if env[3] == "op":
+                            problems.append(f"the operator bond of an environment is contracted with {oth}")
+                        elif (env[3] == "bra") != co or oth[0] != "S" or oth[2] not in (0, rank - 1):
+                            problems.append(f"environment axis {env} joined with {oth}{'*' if co else ''}: bra bonds meet conjugated tensors, ket bonds plain ones")
+                        elif (env[1] == "L") != (oth[2] == 0) or env[2] != (oth[1] if oth[2] == 0 else oth[1] + 1):
+                            problems.append(f"environment axis {env} joined with {oth}: not the bond next to it")
+                    elif a[0] == "S" and b[0] == "S":
+                        if a[1] == b[1]:
+                            if a[2] != b[2] or ca == cb or a[2] in (0, rank - 1):
+                                problems.append(f"{a}{'*' if ca else ''} - {b}{'*' if cb else ''}: a site may only be joined to its own conjugate over one physical / ancilla axis")
+                        elif ca != cb or abs(a[1] - b[1]) != 1 or {a[2], b[2]} != {0, rank - 1}:
+                            problems.append(f"{a}{'*' if ca else ''} - {b}{'*' if cb else ''}: not a (right bond, left bond) pair of neighbouring sites of one layer")
+            chk.ob(rule, f"{qual.split('.')[1]} [rank {rank} sites]", not problems, fi.where, sorted(set(problems))[:3] or "closed networks, (ket, bra) indexing", "closed networks, (ket, bra) indexing", line=fi.node.lineno,
+                   detail=f"{qual}: " + (problems[0] if problems else "") + " - a conjugated index in the ket slot gives the transpose (complex conjugate) of the density matrix, a bond joined across "
+                          "layers or a skipped physical index a wrong partial trace; both are invisible for real states / adjacent sites")
